@@ -114,6 +114,7 @@ class Ctx:
         _check_event_model(self.program)
         self.all_sites: List[Site] = find_sites(self.program)
         self.unresolved = {}     # handler qualname -> first call of a function value that could not be resolved
+        self._ext_cfg = {}
         self.extensions = {}     # function -> parameters the pinned tree did not have, analysed at their default only
         self.scope = None        # set of module paths: rules that quantify over "all sites" then only see these modules
         self._cache = {}
@@ -220,7 +221,8 @@ class Ctx:
         out = {}
         order = ["on_next", "on_error", "on_completed", "scheduler"]
         spec0 = HandlerSpec(site.module, site.subscribe_fn, None, roles=site.roles, ctx=site.ctx)
-        for p in self.ex.run(spec0, None, cfg, max_iter=self.max_iter):
+        ext = self._fn_ext_cfg(site.module, site.subscribe_fn)
+        for p in self.ex.run(spec0, None, dict(ext, **cfg) if ext else cfg, max_iter=self.max_iter):
             for e in p.trace:
                 if e.k == "call" and e.d.get("method") in ("subscribe", "subscribe_"):
                     exprs = {}
@@ -358,10 +360,17 @@ class Ctx:
             if v in space[n]:
                 out[n] = [v]
                 self.extensions.setdefault("%s::%s" % (spec.module.relpath, sc.qualname), set()).add("%s=%s" % (n, v))
+                self._ext_cfg.setdefault((id(spec.fn), spec.ctx_key), {})[n] = v
         return out
 
     def paths(self, spec: HandlerSpec, kind, cfg: Dict[str, str], max_iter=None) -> List[Path]:
         mi = max_iter or self.max_iter
+        # a rule that enumerates a handler without valuations (the handler tested no parameter on the pinned tree) still sees an
+        # extension parameter at its default
+        self.space(spec)
+        ext = self._ext_cfg.get((id(spec.fn), spec.ctx_key))
+        if ext:
+            cfg = dict(ext, **cfg)
         key = (id(spec.fn), tuple(sorted(spec.bound.items())), spec.ctx_key, frozenset(spec.heap0.items()), kind, tuple(sorted(cfg.items())), mi)
         if key not in self._cache:
             ps = self.ex.run(spec, kind, cfg, max_iter=mi)
@@ -385,6 +394,9 @@ class Ctx:
         """Paths of a plain function (no event kind); ctxb binds parameters of the enclosing factories."""
         spec = HandlerSpec(module, fn, None, roles=roles, ctx=ctxb)
         mi = max_iter or self.max_iter
+        ext = self._fn_ext_cfg(module, fn)
+        if ext:
+            cfg = dict(ext, **(cfg or {}))
         key = ("fn", id(fn), tuple(sorted((cfg or {}).items())), mi, tuple(sorted((extra_env or {}).items())), inline, spec.ctx_key,
                tuple(id(f) for f in no_inline), None if only_inline is None else tuple(sorted(id(f) for f in only_inline)))
         if key not in self._cache:
@@ -392,6 +404,38 @@ class Ctx:
             self.total_paths += len(ps)
             self._cache[key] = ps
         return self._cache[key]
+
+
+def _fn_ext_cfg(self, module, fn):
+    """{parameter: default} for the extension parameters (see _extensions_at_default) of fn and of the functions around it"""
+    from .known_params import KNOWN_PARAMS
+    key = ("fnext", id(fn))
+    if key in self._cache:
+        return self._cache[key]
+    out = {}
+    sc = module.scopes.get(fn)
+    while sc is not None:
+        if isinstance(sc.node, ast.FunctionDef):
+            known = KNOWN_PARAMS.get("%s::%s" % (module.relpath, sc.qualname))
+            if known is not None:
+                a = sc.node.args
+                pos = a.posonlyargs + a.args
+                dmap = {}
+                for k, d in enumerate(a.defaults):
+                    dmap[pos[len(pos) - len(a.defaults) + k].arg] = d
+                for x, d in zip(a.kwonlyargs, a.kw_defaults):
+                    if d is not None:
+                        dmap[x.arg] = d
+                for n, d in dmap.items():
+                    if n not in known and n not in out and isinstance(d, ast.Constant) and (d.value is None or isinstance(d.value, bool)):
+                        out[n] = "None" if d.value is None else str(d.value)
+                        self.extensions.setdefault("%s::%s" % (module.relpath, sc.qualname), set()).add("%s=%s" % (n, out[n]))
+        sc = sc.parent
+    self._cache[key] = out
+    return out
+
+
+Ctx._fn_ext_cfg = _fn_ext_cfg
 
 
 def scoped(rule, rels):
